@@ -1205,7 +1205,9 @@ def check_year(ctx, rec, data, rep_cur, rep_spec):
         agree[variant] = ok
         if not ok and variant == "spec":
             em = early_margin(call)
-            if em is not None and em < 1e-12:
+            impl_branch = "early" if call["solver"] is None else "solver"
+            # a tie of the early-return test can only explain a disagreement when model and implementation took DIFFERENT branches
+            if em is not None and em < 1e-12 and (cls != "ok" or branch != impl_branch):
                 amb = f"year.early_test.model_{cls}.impl_{out[0]}"
     # direct oracle on the instructions after this year's write-back
     viol2 = []
@@ -1236,6 +1238,18 @@ def check_year(ctx, rec, data, rep_cur, rep_spec):
                 if c0 > 0 and y != 0:
                     if not all(abs(v / y - m / c0) <= 1e-9 for v, m in zip(vs, pre_m)):
                         flag({"api": "SpendingPackageAdjustment.set_total_spend", "case": "shares-changed"}, f"year {t}: package {n} members {pre_m} -> {vs} (target {y})")
+                # the property itself: after the total-spend constraint every member's share of the package is within its min/max proportion
+                a_ = pk[n]
+                tot_after = float(sum(vs))
+                if tot_after > 0 and (a_.get("min_props") or a_.get("max_props")):
+                    mn_ = a_.get("min_props") or [0.0] * len(vs)
+                    mx_ = a_.get("max_props") or [1.0] * len(vs)
+                    for p_, v, lo_p, hi_p in zip(a_["progs"], vs, mn_, mx_):
+                        sh = v / tot_after
+                        if sh < lo_p - 1e-9 or sh > hi_p + 1e-9:
+                            flag({"api": "SpendingPackageAdjustment.set_total_spend", "case": "share-outside-proportion-limits"},
+                                 f"year {t}: after constrain_instructions {p_} holds {sh:.6f} of package {n} (members {vs}), allowed [{lo_p}, {hi_p}]")
+                            break
     if verdict(ctx, f"constrain_instructions year {t}", agree, amb, viol + viol2, f"{out[0]} {str(post_vals)[:120]}", reps, replay):
         ctx.traces += 1
 
@@ -1349,6 +1363,9 @@ def run_scenarios(ctx):
     # fixed scenario: the package-without-spending witness of `constrain_year_current_gap`
     recs.insert(0, run_scenario(WITNESS_PKG, [[0.5, 0.5, 0.0, 0.0]], 0))
     recs.insert(1, run_scenario(WITNESS_NAN, [[0.0, 3.0]], 0))
+    # a package whose members DO have initial spending (proportions 0.2 / 0.8, maximum proportion 0.3 for the first) but whose proposal
+    # puts nothing on it: the total-spend constraint must move money into it, split by the initial proportions (never 0.5 / 0.5)
+    recs.insert(2, run_scenario(WITNESS_PKG_PROPS, [[0.2, 0.8, 0.0, 0.0], [0.25, 0.75, 0.0, 1.0]], 0))
     check_scenarios(ctx, recs)
 
 
@@ -1357,6 +1374,11 @@ WITNESS_PKG = {"progs": ["P0", "P1", "P2"], "years": [2020], "scale": 1.0,
                "adjs": [{"kind": "package", "name": "pkg0", "t": 2020, "progs": ["P0", "P1"], "min_props": None, "max_props": None, "min_total": 0.0, "max_total": 100.0, "fix_props": False},
                         {"kind": "plain", "prog": "P2", "t": [2020], "limit": "abs", "lower": [0.0], "upper": [7.0]}],
                "con": {"t": [2020], "total": [10.0], "bf": 1.0}}
+WITNESS_PKG_PROPS = {"progs": ["P0", "P1", "P2"], "years": [2020], "scale": 1.0,
+                     "alloc": {"P0": {"2020": 2.0}, "P1": {"2020": 8.0}, "P2": {"2020": 0.0}},
+                     "adjs": [{"kind": "package", "name": "pkg0", "t": 2020, "progs": ["P0", "P1"], "min_props": [0.0, 0.0], "max_props": [0.3, 1.0], "min_total": 0.0, "max_total": 100.0, "fix_props": False},
+                              {"kind": "plain", "prog": "P2", "t": [2020], "limit": "abs", "lower": [0.0], "upper": [7.0]}],
+                     "con": {"t": [2020], "total": [10.0], "bf": 1.0}}
 WITNESS_NAN = {"progs": ["P0", "P1"], "years": [2020], "scale": 1.0,
                "alloc": {"P0": {"2020": 0.0}, "P1": {"2020": 4.0}},
                "adjs": [{"kind": "plain", "prog": "P0", "t": [2020], "limit": "rel", "lower": [0.5], "upper": [math.inf]},
